@@ -287,6 +287,11 @@ def sweep_cells(tier):
         cells.append(['query', text, False, True])
     for k in range(len(AFTER_TIMEOUT)):
         cells.append(['_after_timeout', k])
+    # the same requests through ports with another read timeout (the budget is counted in reads, not seconds)
+    for c in list(cells):
+        if len(c) == 4 and c[2] is False and c[3] is True and c[1] in ('SM,10,1,2\r', 'QS\r', 'V\r', 'QB\r'):
+            cells.append(c + [2.0])
+            cells.append(c + [0.25])
     # the same requests against boards whose lines end LF only / whose data lines end LF CR
     for c in list(cells):
         if len(c) == 4 and c[2] is False and c[3] is True:
@@ -337,9 +342,13 @@ def sweep_expand(cell):
     if len(cell) > 4 and cell[4] in ('lf', 'nlcr'):
         eol = cell[4]
         cell = cell[:4]
+    tmo = 1.0
+    if len(cell) > 4 and isinstance(cell[4], (int, float)):
+        tmo = float(cell[4])
+        cell = cell[:4]
     world = _world(1, err_ok, nicks=[{'blank': ''}.get(cell[4], cell[4])] if len(cell) > 4 else None, eol=eol)
     port = world['boards'][0]['port']
-    ops = [{'op': 'lopen', 'slot': 0, 'port': port},
+    ops = [{'op': 'lopen', 'slot': 0, 'port': port, 'timeout': tmo},
            lcall('ebb_serial.command', [{'slot': 0}, 'SL,77\r']),
            lcall('ebb_serial.' + kind, [{'slot': 0}, text, verbose])]
     for f, t in FOLLOW:
@@ -375,7 +384,9 @@ def gen(rng, idx):
                    eol=rng.choice(['crlf', 'crlf', 'lf', 'nlcr']))
     ops = []
     for i in range(nb):
-        ops.append({'op': 'lopen', 'slot': i, 'port': world['boards'][i]['port']})
+        # the caller owns the port object: its read timeout need not be the 1 s testPort() uses
+        ops.append({'op': 'lopen', 'slot': i, 'port': world['boards'][i]['port'],
+                    'timeout': rng.choice([1.0, 1.0, 1.0, 0.5, 2.0, 5.0, 0.05, 10.0])})
     n = rng.randint(2, 30)
     counter = 1
     for _ in range(n):
